@@ -307,6 +307,71 @@ Proof.
   unfold split_tags. apply split_join; auto.
 Qed.
 
+(* ------------------------------------------------------------------ the escaped literal reads back as the pattern *)
+Lemma is_dq_chr c : is_dq c = true -> c = chr 34.
+Proof.
+  unfold is_dq, code. intros H. apply N.eqb_eq in H.
+  rewrite <- (ascii_N_embedding c). now rewrite H.
+Qed.
+Lemma unesc_bs_bs q : unesc (String (chr 92) (String (chr 92) q)) = ucons (String (chr 92) "") (unesc q).
+Proof. reflexivity. Qed.
+Lemma unesc_bs_dq q : unesc (String (chr 92) (String (chr 34) q)) = ucons (String (chr 34) "") (unesc q).
+Proof. reflexivity. Qed.
+
+Theorem unesc_quote p : unesc (quote_body p) = UVal p.
+Proof.
+  induction p as [|a p IH]; [reflexivity|].
+  cbn [quote_body]. destruct (is_bs a) eqn:Hb.
+  - cbn [orb]. rewrite (is_bs_chr a Hb). rewrite unesc_bs_bs, IH. reflexivity.
+  - destruct (is_dq a) eqn:Hd; cbn [orb].
+    + rewrite (is_dq_chr a Hd). rewrite unesc_bs_dq, IH. reflexivity.
+    + rewrite (unesc_unfold_plain a _ Hb), IH. reflexivity.
+Qed.
+
+Lemma lex_body_quote p : lex_body (quote_body p) = true.
+Proof.
+  induction p as [|a p IH]; [reflexivity|].
+  cbn [quote_body]. destruct (is_bs a) eqn:Hb.
+  - cbn [orb]. exact IH.
+  - destruct (is_dq a) eqn:Hd; cbn [orb].
+    + exact IH.
+    + cbn [lex_body]. rewrite Hb, Hd. exact IH.
+Qed.
+Lemma ctl_quote p : sexists is_ctl (quote_body p) = sexists is_ctl p.
+Proof.
+  induction p as [|a p IH]; [reflexivity|].
+  cbn [quote_body]. destruct (is_bs a || is_dq a)%bool; cbn [sexists]; rewrite IH; reflexivity.
+Qed.
+Theorem quote_reads_back p : sexists is_ctl p = false ->
+  lex_ok (quote_body p) = true /\ unesc (quote_body p) = UVal p.
+Proof.
+  intros H. split; [|apply unesc_quote]. unfold lex_ok. now rewrite ctl_quote, H, lex_body_quote.
+Qed.
+
+(* ------------------------------------------------------------------ the loader strips the cells *)
+Lemma lstrip_idem s : lstrip (lstrip s) = lstrip s.
+Proof. induction s as [|c r IH]; [reflexivity|]. simpl. destruct (is_ws c) eqn:E; [exact IH|]. simpl. now rewrite E. Qed.
+Lemma rstrip_idem s : rstrip (rstrip s) = rstrip s.
+Proof.
+  induction s as [|c r IH]; [reflexivity|]. simpl.
+  destruct (rstrip r) as [|c' r'] eqn:E.
+  - destruct (is_ws c) eqn:W; [reflexivity|]. simpl. now rewrite W.
+  - cbn [rstrip] in *. rewrite IH. reflexivity.
+Qed.
+Lemma lstrip_rstrip x : lstrip x = x -> lstrip (rstrip x) = rstrip x.
+Proof.
+  intros H. destruct (lstrip_fix x H) as [->|[c [r [-> W]]]]; [reflexivity|].
+  cbn [rstrip]. destruct (rstrip r); rewrite ?W; cbn [lstrip]; rewrite W; reflexivity.
+Qed.
+Lemma strip_trimmed s : trimmed (strip s) = true.
+Proof.
+  unfold trimmed, strip. rewrite andb_true_iff, !String.eqb_eq. split.
+  - apply lstrip_rstrip, lstrip_idem.
+  - apply rstrip_idem.
+Qed.
+Lemma loader_cells_stripped r : cells_stripped (loader_cells r) = true.
+Proof. unfold cells_stripped, loader_cells. simpl. now rewrite !strip_trimmed. Qed.
+
 (* ------------------------------------------------------------------ the two matchers agree on a safe rule *)
 Definition re_case_law (re : string -> string -> option bool) : Prop := forall p d, re p (upper d) = re p d.
 Definition re_empty_law (re : string -> string -> option bool) : Prop := forall d, re "" d = Some true.
@@ -321,38 +386,17 @@ Proof.
     + injection H as <-. reflexivity.
 Qed.
 
-Lemma cents_eq a v : (a mod CENT = 0)%Z -> (v mod CENT = 0)%Z -> Z.ltb (Z.abs (a - v)) CENT = Z.eqb a v.
-Proof.
-  unfold CENT. intros Ha Hv.
-  apply Z.mod_divide in Ha; [|lia]. apply Z.mod_divide in Hv; [|lia].
-  destruct Ha as [x ->]. destruct Hv as [y ->].
-  destruct (Z.eqb_spec (x * 64) (y * 64)) as [E|E]; [rewrite E; apply Z.ltb_lt; lia|apply Z.ltb_ge; lia].
-Qed.
-
-(* the transaction amount is unconstrained when the rule has no `=` amount modifier *)
-Definition not_aeq (c : acond) : bool := match a_op c with AEq => false | _ => true end.
-Definition no_aeq (r : csv_rule) : bool := forallb not_aeq (amts r).
-Definition amount_ok_for (t : txn) (l : list acond) : Prop := whole_cents t = true \/ forallb not_aeq l = true.
-
 Lemma amts_eval re t l :
-  amount_ok_for t l -> forallb safe_acond l = true ->
   eval_and re t (flat_map acond_atoms l) = Some (forallb (amt_ok t) l).
 Proof.
-  induction l as [|c l IH]; intros Hw H; [reflexivity|].
-  simpl in H. apply andb_true_iff in H. destruct H as [Hc Hl].
-  assert (Hw' : amount_ok_for t l).
-  { destruct Hw as [Hw|Hw]; [now left|right]. simpl in Hw. apply andb_true_iff in Hw. tauto. }
-  specialize (IH Hw' Hl).
+  induction l as [|c l IH]; [reflexivity|].
   simpl flat_map. simpl forallb.
-  unfold acond_atoms, amt_ok, safe_acond in *. destruct (a_op c) eqn:Eo; simpl.
+  unfold acond_atoms, amt_ok in *. destruct (a_op c) eqn:Eo; simpl.
   - destruct (Z.ltb (a_v c) (amount t)); [exact IH|reflexivity].
   - destruct (Z.leb (a_v c) (amount t)); [exact IH|reflexivity].
   - destruct (Z.ltb (amount t) (a_v c)); [exact IH|reflexivity].
   - destruct (Z.leb (amount t) (a_v c)); [exact IH|reflexivity].
-  - destruct Hw as [Hw|Hw]; [|simpl in Hw; unfold not_aeq in Hw; rewrite Eo in Hw; discriminate].
-    unfold whole_cents in Hw. apply Z.eqb_eq in Hw.
-    apply Z.eqb_eq in Hc. rewrite (cents_eq _ _ Hw Hc).
-    destruct (Z.eqb (amount t) (a_v c)); [exact IH|reflexivity].
+  - destruct (Z.ltb (Z.abs (amount t - a_v c)) CENT); [exact IH|reflexivity].
   - destruct (Z.leb (a_v c) (amount t)); simpl; [|reflexivity].
     destruct (Z.leb (amount t) (a_hi c)); [exact IH|reflexivity].
 Qed.
@@ -371,11 +415,11 @@ Proof.
 Qed.
 
 Lemma mods_eval re today t r :
-  amount_ok_for t (amts r) -> forallb safe_acond (amts r) = true -> existsb is_rel (dates r) = false ->
+  existsb is_rel (dates r) = false ->
   eval_and re t (flat_map acond_atoms (amts r) ++ flat_map dcond_atoms (dates r))%list
   = Some (forallb (amt_ok t) (amts r) && forallb (date_ok today t) (dates r))%bool.
 Proof.
-  intros Hw Ha Hd. rewrite (eval_and_app re t _ _ _ (amts_eval re t _ Hw Ha)).
+  intros Hd. rewrite (eval_and_app re t _ _ _ (amts_eval re t _)).
   destruct (forallb (amt_ok t) (amts r)); [|reflexivity].
   now rewrite (dates_eval re today t _ Hd).
 Qed.
@@ -414,89 +458,110 @@ Record rule_rel (re : string -> string -> option bool) (lx : string -> txn -> op
   rr_cat : e_cat e = category r;
   rr_sub : e_sub e = subcategory r;
   rr_tags : e_tags e = tags r;
-  rr_match : forall t, amount_ok_for t (amts r) ->
-             is_true (eval_and re t (e_match e)) = is_true (legacy_match re lx today r t) }.
+  rr_match : forall t, is_true (eval_and re t (e_match e)) = is_true (legacy_match re lx today r t) }.
 
+(* a loaded, guarded row that has a category or tags becomes one engine rule deciding exactly like the CSV rule *)
 Lemma safe_rule_loads re lx today r :
-  re_case_law re -> re_empty_law re -> safe_rule r = true ->
-  exists e, load_rule r = LOk e /\ rule_rel re lx today r e.
+  re_case_law re -> re_empty_law re -> cells_stripped r = true -> safe_rule r = true -> noop_rule r = false ->
+  exists e, load_rule r = LOk (Some e) /\ rule_rel re lx today r e.
 Proof.
-  intros Lc Le H. unfold safe_rule in H. rewrite !andb_true_iff, !negb_true_iff in H.
-  destruct H as [[[[[[[[[[[Hf Hm] Hmn] Hc] Hs] Hct] Htg] Hlex] Hesc] Hexp] Hrel] Hamt].
+  intros Lc Le Hcells H Hnoop. unfold safe_rule in H. rewrite !andb_true_iff, !negb_true_iff in H.
+  destruct H as [[[[Hf Hmn] Htg] Hexp] Hrel].
+  unfold cells_stripped in Hcells. rewrite !andb_true_iff in Hcells. destruct Hcells as [[Hm Hc] Hs].
+  rewrite Hnoop, orb_false_r in Hmn.
+  assert (Hctl : sexists is_ctl (pat r) = false).
+  { unfold fields_modelled in Hf. rewrite negb_true_iff, !orb_false_iff in Hf. tauto. }
+  destruct (quote_reads_back (pat r) Hctl) as [Hlex Hun].
   assert (Hmatch : load_match r = LOk ((if nonempty (pat r) then [ERegex (pat r)] else [])
                                        ++ (flat_map acond_atoms (amts r) ++ flat_map dcond_atoms (dates r)))%list).
   { unfold load_match. rewrite Hrel, andb_false_r, (kept_mods r Hrel).
-    destruct (nonempty (pat r)); [|reflexivity].
-    rewrite Hlex. apply unesc_id_iff in Hesc. now rewrite Hesc. }
+    destruct (nonempty (pat r)); [|reflexivity]. now rewrite Hlex, Hun. }
   assert (Htags : match tags r with [] => [] | l => split_tags (strip (join ", " l)) end = tags r).
   { destruct (tags r) as [|x l] eqn:E; [reflexivity|]. apply tags_roundtrip; [exact Htg|discriminate]. }
-  unfold load_rule. rewrite Hf. simpl negb. cbv iota.
-  rewrite (trimmed_strip _ Hm), Hmn. simpl negb. cbv iota. rewrite Hmatch.
-  rewrite (trimmed_strip _ Hc), (trimmed_strip _ Hs), Htags.
   assert (Hdyn : existsb is_dynamic (tags r) = false).
   { unfold fields_modelled in Hf. rewrite negb_true_iff, !orb_false_iff in Hf. tauto. }
-  rewrite Hdyn.
-  assert (Hpres : (negb (nonempty (category r)) && match tags r with [] => true | _ => false end)%bool = false).
-  { apply orb_true_iff in Hct. destruct Hct as [-> | Ht]; [reflexivity|].
-    destruct (tags r); [discriminate|apply andb_false_r]. }
-  rewrite Hpres. eexists. split; [reflexivity|].
+  unfold load_rule. rewrite Hf, Hnoop. simpl negb. cbv iota.
+  rewrite Hmn. simpl negb. cbv iota. rewrite Hmatch.
+  rewrite Htags, Hdyn. unfold noop_rule in Hnoop. rewrite Hnoop.
+  rewrite (trimmed_strip _ Hm), (trimmed_strip _ Hc), (trimmed_strip _ Hs).
+  eexists. split; [reflexivity|].
   constructor; simpl; try reflexivity.
-  intros t Hw. unfold legacy_match. rewrite Hexp.
+  intros t. unfold legacy_match. rewrite Hexp.
   destruct (nonempty (pat r)) eqn:Hp.
   - simpl. rewrite (Lc (pat r) (desc t)).
     destruct (re (pat r) (desc t)) as [[|]|]; try reflexivity.
-    now rewrite (mods_eval re today t r Hw Hamt Hrel).
+    now rewrite (mods_eval re today t r Hrel).
   - destruct (pat r); [|discriminate]. simpl. rewrite (Le (upper (desc t))).
-    now rewrite (mods_eval re today t r Hw Hamt Hrel).
+    now rewrite (mods_eval re today t r Hrel).
+Qed.
+
+(* a loaded row without category and tags is written as a comment and never had any effect *)
+Lemma noop_rule_skipped r :
+  cells_stripped r = true -> safe_rule r = true -> noop_rule r = true ->
+  load_rule r = LOk None /\ category r = "" /\ tags r = [].
+Proof.
+  intros Hcells H Hnoop. unfold safe_rule in H. rewrite !andb_true_iff in H.
+  destruct H as [[[[Hf _] _] _] _].
+  unfold cells_stripped in Hcells. rewrite !andb_true_iff in Hcells. destruct Hcells as [[_ Hc] _].
+  split; [unfold load_rule; now rewrite Hf, Hnoop|].
+  unfold noop_rule in Hnoop. apply andb_true_iff in Hnoop. destruct Hnoop as [A B].
+  rewrite (trimmed_strip _ Hc) in A. split.
+  - destruct (category r); [reflexivity|discriminate].
+  - destruct (tags r); [reflexivity|discriminate].
 Qed.
 
 (* ------------------------------------------------------------------ induction over the rule list *)
-Lemma safe_rules_load re lx today rules :
-  re_case_law re -> re_empty_law re -> forallb safe_rule rules = true ->
-  exists ers, load_all rules = LOk ers /\ Forall2 (rule_rel re lx today) rules ers.
-Proof.
-  intros Lc Le. induction rules as [|r rs IH]; intros H.
-  - exists []. split; [reflexivity|constructor].
-  - simpl in H. apply andb_true_iff in H. destruct H as [Hr Hrs].
-    destruct (safe_rule_loads re lx today r Lc Le Hr) as [e [He Rel]].
-    destruct (IH Hrs) as [es [Hes Rels]].
-    exists (e :: es). split; [simpl; now rewrite He, Hes|now constructor].
-Qed.
-
-Definition txn_in_scope (rules : list csv_rule) (t : txn) : Prop :=
-  whole_cents t = true \/ forallb no_aeq rules = true.
-
-Lemma classify_equal re lx today rules ers t :
-  txn_in_scope rules t -> Forall2 (rule_rel re lx today) rules ers ->
-  engine_classify re ers t = legacy_classify re lx today rules t.
-Proof.
-  intros Hw F. induction F as [|r e rs es Rel _ IH]; [reflexivity|].
-  assert (H1 : amount_ok_for t (amts r)).
-  { destruct Hw as [Hw|Hw]; [now left|right]. simpl in Hw. apply andb_true_iff in Hw. apply Hw. }
-  assert (H2 : txn_in_scope rs t).
-  { destruct Hw as [Hw|Hw]; [now left|right]. simpl in Hw. apply andb_true_iff in Hw. apply Hw. }
-  simpl. destruct Rel as [A B C D M]. rewrite (M t H1), (IH H2), A, B, C, D. reflexivity.
-Qed.
-
 Definition preserves_at re lx today rules t : Prop :=
   exists ers, load_all rules = LOk ers /\
               res_equiv (engine_classify re ers t) (legacy_classify re lx today rules t).
 
+Lemma safe_rules_classify re lx today rules :
+  re_case_law re -> re_empty_law re ->
+  forallb cells_stripped rules = true -> forallb safe_rule rules = true ->
+  exists ers, load_all rules = LOk ers /\
+              forall t, engine_classify re ers t = legacy_classify re lx today rules t.
+Proof.
+  intros Lc Le. induction rules as [|r rs IH]; intros Hc H.
+  - exists []. split; reflexivity.
+  - simpl in H, Hc. apply andb_true_iff in H. destruct H as [Hr Hrs].
+    apply andb_true_iff in Hc. destruct Hc as [Hcr Hcrs].
+    destruct (IH Hcrs Hrs) as [es [Hes Heq]].
+    destruct (noop_rule r) eqn:Hn.
+    + destruct (noop_rule_skipped r Hcr Hr Hn) as [Hl [Hcat Htags]].
+      exists es. split; [simpl; now rewrite Hl, Hes|].
+      intros t. simpl. rewrite Hcat, Htags, <- Heq. simpl.
+      destruct (is_true (legacy_match re lx today r t)); [|reflexivity].
+      destruct (engine_classify re es t); reflexivity.
+    + destruct (safe_rule_loads re lx today r Lc Le Hcr Hr Hn) as [e [He [A B C D M]]].
+      exists (e :: es). split; [simpl; now rewrite He, Hes|].
+      intros t. simpl. rewrite (M t), (Heq t), A, B, C, D. reflexivity.
+Qed.
+
+(* for rule lists as the (fixed) loader produces them: cells stripped *)
+Theorem conversion_preserves_loaded :
+  forall re lx, re_case_law re -> re_empty_law re ->
+  forall today rules, forallb cells_stripped rules = true -> forallb safe_rule rules = true ->
+  forall t, preserves_at re lx today rules t.
+Proof.
+  intros re lx Lc Le today rules Hc Hs t.
+  destruct (safe_rules_classify re lx today rules Lc Le Hc Hs) as [ers [Hl Heq]].
+  exists ers. split; [exact Hl|]. rewrite (Heq t). split; [reflexivity|tauto].
+Qed.
+
+(* ... i.e. for every list of raw CSV rows pushed through the loader's cell stripping *)
 Theorem conversion_preserves_partial :
   forall re lx, re_case_law re -> re_empty_law re ->
-  forall today rules, forallb safe_rule rules = true ->
-  forall t, txn_in_scope rules t -> preserves_at re lx today rules t.
+  forall today raw, forallb safe_rule (map loader_cells raw) = true ->
+  forall t, preserves_at re lx today (map loader_cells raw) t.
 Proof.
-  intros re lx Lc Le today rules Hs t Hw.
-  destruct (safe_rules_load re lx today rules Lc Le Hs) as [ers [Hl F]].
-  exists ers. split; [exact Hl|].
-  rewrite (classify_equal re lx today rules ers t Hw F). split; [reflexivity|tauto].
+  intros re lx Lc Le today raw Hs t. apply conversion_preserves_loaded; auto.
+  apply forallb_forall. intros x Hx. apply in_map_iff in Hx. destruct Hx as [r [<- _]]. apply loader_cells_stripped.
 Qed.
 
 (* ------------------------------------------------------------------ the full statement and the witness oracle *)
 Definition conversion_preserves_statement : Prop :=
   forall re lx, re_case_law re -> re_empty_law re ->
-  forall today rules t, load_all rules <> LUnm -> preserves_at re lx today rules t.
+  forall today raw t, load_all (map loader_cells raw) <> LUnm -> preserves_at re lx today (map loader_cells raw) t.
 
 Lemma upper_char_idem c : upper_char (upper_char c) = upper_char c.
 Proof. destruct c as [[] [] [] [] [] [] [] []]; reflexivity. Qed.
@@ -511,13 +576,8 @@ Proof. intros p d. unfold witness_re. now rewrite upper_idem. Qed.
 Lemma witness_empty tbl : re_empty_law (witness_re tbl).
 Proof. intros d. reflexivity. Qed.
 
-Definition fails_on (rules : list csv_rule) (t : txn) : Prop :=
-  exists re lx today, re_case_law re /\ re_empty_law re /\ load_all rules <> LUnm /\ ~ preserves_at re lx today rules t.
-Lemma fails_on_refutes rules t : fails_on rules t -> ~ conversion_preserves_statement.
+Definition fails_on (raw : list csv_rule) (t : txn) : Prop :=
+  exists re lx today, re_case_law re /\ re_empty_law re /\ load_all (map loader_cells raw) <> LUnm
+                      /\ ~ preserves_at re lx today (map loader_cells raw) t.
+Lemma fails_on_refutes raw t : fails_on raw t -> ~ conversion_preserves_statement.
 Proof. intros [re [lx [today [A [B [C D]]]]]] H. apply D. now apply H. Qed.
-Lemma load_err_fails rules t : load_all rules = LErr -> fails_on rules t.
-Proof.
-  intros H. exists (witness_re []), (fun _ _ => None), 0%Z.
-  split; [apply witness_case|]. split; [apply witness_empty|]. split; [rewrite H; discriminate|].
-  intros [ers [E _]]. rewrite H in E. discriminate.
-Qed.
